@@ -1,0 +1,49 @@
+//go:build verif
+
+// Contracts for package sanitizer, read by the verification tooling only.
+// This file holds comments and nothing else; it is compiled only with -tags verif.
+package sanitize
+
+//@ package-wide safety[C16] errors[C16] nonnil-params
+//@ api-root SanitizeSQL NewQuery QuoteString QuoteBytes
+
+// the lexer's cursor stays inside the source: 0 <= start <= pos <= len(src)
+//@ type-invariant *sqlLexer cursor: self.start >= 0 && self.start <= self.pos && self.pos <= len(self.src)
+
+//@ func rawState
+//@   loop 0 invariant cursor[C16]: l.start >= 0 && l.start <= l.pos && l.pos <= len(l.src) && l.src == old(l.src)
+//@   loop 0 decreases [C16,C10]: len(l.src) - l.pos
+//@   ensures cursor[C16]: l.start >= 0 && l.start <= l.pos && l.pos <= len(l.src) && l.src == old(l.src)
+
+//@ func singleQuoteState
+//@   loop 0 invariant cursor[C16]: l.start >= 0 && l.start <= l.pos && l.pos <= len(l.src) && l.src == old(l.src)
+//@   loop 0 decreases [C16,C10]: len(l.src) - l.pos
+//@   ensures cursor[C16]: l.start >= 0 && l.start <= l.pos && l.pos <= len(l.src) && l.src == old(l.src)
+
+//@ func doubleQuoteState
+//@   loop 0 invariant cursor[C16]: l.start >= 0 && l.start <= l.pos && l.pos <= len(l.src) && l.src == old(l.src)
+//@   loop 0 decreases [C16,C10]: len(l.src) - l.pos
+//@   ensures cursor[C16]: l.start >= 0 && l.start <= l.pos && l.pos <= len(l.src) && l.src == old(l.src)
+
+//@ func placeholderState
+//@   loop 0 invariant cursor[C16]: l.start >= 0 && l.start <= l.pos && l.pos <= len(l.src) && l.src == old(l.src)
+//@   loop 0 decreases [C16,C10]: len(l.src) - l.pos
+//@   ensures cursor[C16]: l.start >= 0 && l.start <= l.pos && l.pos <= len(l.src) && l.src == old(l.src)
+
+//@ func escapeStringState
+//@   loop 0 invariant cursor[C16]: l.start >= 0 && l.start <= l.pos && l.pos <= len(l.src) && l.src == old(l.src)
+//@   loop 0 decreases [C16,C10]: len(l.src) - l.pos
+//@   ensures cursor[C16]: l.start >= 0 && l.start <= l.pos && l.pos <= len(l.src) && l.src == old(l.src)
+
+//@ func oneLineCommentState
+//@   loop 0 invariant cursor[C16]: l.start >= 0 && l.start <= l.pos && l.pos <= len(l.src) && l.src == old(l.src)
+//@   loop 0 decreases [C16,C10]: len(l.src) - l.pos
+//@   ensures cursor[C16]: l.start >= 0 && l.start <= l.pos && l.pos <= len(l.src) && l.src == old(l.src)
+
+//@ func multilineCommentState
+//@   loop 0 invariant cursor[C16]: l.start >= 0 && l.start <= l.pos && l.pos <= len(l.src) && l.src == old(l.src)
+//@   loop 0 decreases [C16,C10]: len(l.src) - l.pos
+//@   ensures cursor[C16]: l.start >= 0 && l.start <= l.pos && l.pos <= len(l.src) && l.src == old(l.src)
+
+//@ func NewQuery
+//@   ensures built[C16]: result != nil && result1 == nil
